@@ -124,15 +124,15 @@ Fixpoint blank_hist (doc : pdoc) (h : list tchange) : Prop :=
 
 Theorem blank_history : forall h doc,
   CleanDoc doc -> pnew (p_text doc) = Done doc -> blank_hist doc h ->
-  exists doc', phist doc h = Done doc' /\ pnew (final_text (p_text doc) h) = Done doc' /\ p_tree doc' = p_tree doc.
+  exists doc', phist doc h = Done doc' /\ pnew (final_text (p_text doc) h) = Done doc' /\ p_tree doc' = p_tree doc /\ CleanDoc doc'.
 Proof.
   induction h as [|c r IH]; intros doc Hc Hn Hb.
   - exists doc. cbn [phist final_text]. auto.
   - destruct Hb as [Hb1 Hb2]. destruct (blank_step doc c Hc Hb1) as (d1 & E1 & N1 & C1 & T1).
     assert (Ht1 : p_text d1 = c_a c ++ c_ins c ++ c_b c).
     { unfold pnew in N1. destruct (lex _); [|discriminate]. destruct (parse _); try discriminate. injection N1 as <-. reflexivity. }
-    rewrite <- Ht1 in N1. destruct (IH d1 C1 N1 (Hb2 d1 ltac:(rewrite <- Ht1; exact N1))) as (d2 & E2 & N2 & T2).
-    exists d2. cbn [phist final_text]. rewrite E1. rewrite <- Ht1. repeat split; [exact E2 | exact N2 | congruence].
+    rewrite <- Ht1 in N1. destruct (IH d1 C1 N1 (Hb2 d1 ltac:(rewrite <- Ht1; exact N1))) as (d2 & E2 & N2 & T2 & C2).
+    exists d2. cbn [phist final_text]. rewrite E1. rewrite <- Ht1. split; [exact E2|]. split; [exact N2|]. split; [congruence | exact C2].
 Qed.
 
 (* ---- decidable versions: predicates on the old text and the changes only ---- *)
@@ -196,6 +196,6 @@ Proof.
     apply andb_true_iff in Hb as [H1 H2]. unfold blank_changeb in H1. apply andb_true_iff in H1 as [H1 _].
     apply text_eqb_eq in H1. split; [exact H1 | exact (IH _ H2)]. }
   destruct Hcd as (Hl & Hrest). rewrite <- Ht in Hb, Hn.
-  destruct (blank_history h doc0 (conj Hl Hrest) Hn (blank_histb_spec h doc0 Hl Hb)) as (doc' & E & N & _).
+  destruct (blank_history h doc0 (conj Hl Hrest) Hn (blank_histb_spec h doc0 Hl Hb)) as (doc' & E & N & _ & _).
   rewrite Ht in *. exists doc0, doc'. auto.
 Qed.
